@@ -73,7 +73,7 @@ def run(ctx):
     h4(ctx, R)
 
 
-def h1(ctx, R):
+def h1(ctx, R, only=None):
     prog = ctx.program
     # ---- H1 ----------------------------------------------------------------------
     ctx.rule("H1", "process-shared mutable objects and their writers")
@@ -127,6 +127,20 @@ def h1(ctx, R):
                     if nm in ("args_definition", "must_follow", "lrules", "loaded_extensions") or (
                             isinstance(base, ast.Name) and any(k == "module" and mm is f.module for k, mm, _ in short[nm])):
                         aliases[tg.id] = nm
+        for _pass in range(2):
+            # an element reached through an alias is still part of the shared object
+            for n in walk_no_nested(f.node):
+                if isinstance(n, (ast.Assign, ast.For)):
+                    src = n.value if isinstance(n, ast.Assign) else n.iter
+                    tg = n.targets[0] if isinstance(n, ast.Assign) else n.target
+                    base = src
+                    if isinstance(base, ast.Call) and isinstance(base.func, ast.Attribute) and base.func.attr == "get":
+                        base = base.func.value
+                    while isinstance(base, ast.Subscript):
+                        base = base.value
+                    if isinstance(tg, ast.Name) and isinstance(base, ast.Name) and base.id in aliases and tg.id not in aliases \
+                            and (isinstance(src, (ast.Subscript, ast.Call)) or isinstance(n, ast.For)):
+                        aliases[tg.id] = aliases[base.id]
         for n in walk_no_nested(f.node):
             target = None
             how = None
@@ -179,6 +193,8 @@ def h1(ctx, R):
         if key in seen:
             continue
         seen.add(key)
+        if only is not None and target not in only:
+            continue
         if target == "loaded_extensions" and f.qualname in allowed["RequireCommand.loaded_extensions"]:
             ctx.holds("H1", "registry writer %s: %s" % (f.qualname, norm(st)[:60]))
         elif target == "<module namespace>" and f is R.add_commands:
@@ -243,6 +259,14 @@ def h2(ctx, R):
         raise AnalysisError("H2", "parse(): reset call or token loop not found")
     rn = [x for c in rcalls for x in cfgp.node_containing(c)]
     ln = [x for lp in loops for x in cfgp.nodes_for(lp)]
+    # every verdict is about THIS input: no normal exit of parse() is reachable without the reset
+    for r in walk_no_nested(R.parse.node):
+        if isinstance(r, ast.Return):
+            if all(cfgp.dominates(rn, x, exc=False) for x in cfgp.nodes_for(r)):
+                continue
+            ctx.violation("H2", R.parse, "exit-before-reset", "parse() can return (%s) without having reset the parser: result, comments and "
+                          "loaded extensions of the previous script stay in place" % norm(r)[:30], node=r,
+                          witness="parse(script) then parse(b'') on the same object: result still holds the first script's commands")
     if all(cfgp.dominates(rn, x, exc=False) for x in ln):
         ctx.holds("H2", "the reset call dominates the token loop in %s" % R.parse.qualname)
     else:
@@ -261,6 +285,28 @@ def h2(ctx, R):
         else:
             ctx.violation("H2", R.scan, "lexer-not-reset:%s" % attr, "Lexer.%s is not (re)initialised at the start of scan" % attr, node=R.scan.node,
                           witness="a reused Parser starts lexing the new text at the old position")
+    # any other state a Lexer method keeps on the object (caches of line offsets, counters) is per input as well
+    init_l = R.Lexer.methods.get("__init__")
+    scan_sets = {t.attr for x in cfgs.stmt_nodes() if isinstance(x.ast, (ast.Assign, ast.AnnAssign)) and not any(contains_node(lp, x.ast) for lp in sloops)
+                 for t in (x.ast.targets if isinstance(x.ast, ast.Assign) else [x.ast.target]) if isinstance(t, ast.Attribute)}
+    kept = {}
+    for g in R.Lexer.methods.values():
+        if g is init_l:
+            continue
+        sn = g.params[0] if g.params else "self"
+        for n in walk_no_nested(g.node):
+            if isinstance(n, ast.Attribute) and isinstance(n.value, ast.Name) and n.value.id == sn:
+                p_ = n._parent
+                if isinstance(n.ctx, (ast.Store, ast.Del)) or (isinstance(p_, ast.Attribute) and p_.attr in MUTATORS and isinstance(p_._parent, ast.Call)) \
+                        or (isinstance(p_, ast.Subscript) and isinstance(p_.ctx, (ast.Store, ast.Del))) or (isinstance(p_, ast.AugAssign) and p_.target is n):
+                    kept.setdefault(n.attr, g)
+    for a, g in sorted(kept.items()):
+        if a in scan_sets:
+            ctx.holds("H2", "Lexer.%s (written in %s) is initialised at the start of scan" % (a, g.qualname))
+        else:
+            ctx.violation("H2", R.scan, "lexer-not-reset:%s" % a, "Lexer attribute %s is written by %s but not re-initialised by scan(): it carries "
+                          "over to the next input" % (a, g.qualname), node=R.scan.node,
+                          witness="a reused Parser reports error positions of the second script with the line layout of the first")
 
 
 
